@@ -13,6 +13,58 @@ from doubles.refcodec import Node
 S_WA = "s.whatsapp.net"
 
 
+def pb_varint_field_range(buf, start, end, field_no):
+    """[lo, hi) byte range (tag and value) of the first varint field field_no in buf[start:end]; (0, 0) if absent."""
+    i = start
+    try:
+        while i < end:
+            tag = buf[i]
+            if tag & 0x80:
+                return 0, 0
+            i += 1
+            wt, fn = tag & 7, tag >> 3
+            if wt == 0:
+                lo = i
+                while buf[i] & 0x80:
+                    i += 1
+                i += 1
+                if fn == field_no:
+                    return lo - 1, i
+            elif wt == 2:
+                ln = 0
+                shift = 0
+                while True:
+                    b = buf[i]
+                    i += 1
+                    ln |= (b & 0x7F) << shift
+                    shift += 7
+                    if not b & 0x80:
+                        break
+                i += ln
+            else:
+                return 0, 0
+    except IndexError:
+        pass
+    return 0, 0
+
+
+def whisper_counter_range(enc_type, data):
+    """Byte range of the message counter (WhisperMessage field 2) inside a 'msg' or 'pkmsg' ciphertext."""
+    data = bytes(data)
+    if enc_type == "msg":
+        return pb_varint_field_range(data, 1, len(data) - 8, 2)
+    if enc_type == "pkmsg":
+        lo, hi = pb_field_range(data, 1, 4)
+        if hi > lo:
+            # skip tag + length of the embedded message, then its version byte
+            i = lo + 1
+            while data[i] & 0x80:
+                i += 1
+            i += 1
+            return pb_varint_field_range(data, i + 1, hi - 8, 2)
+    return 0, 0
+
+
 def pb_field_range(buf, start, field_no):
     """[lo, hi) byte range (tag, length and payload) of the first occurrence of a length-delimited protobuf
     field inside buf[start:]; (0, 0) if absent or unparsable."""
@@ -76,6 +128,7 @@ class Server(object):
         self.dup_plan = {}        # (recipient jid, message id) -> number of extra deliveries
         self.corrupt_plan = {}    # (recipient jid, message id) -> relative byte position (0..1)
         self.corrupted = set()
+        self.corrupted_counter = set()   # ... with the changed byte inside the Signal message counter
         self.duplicated = {}
         self.log = []             # (direction, conn id, Node) every stanza seen/sent, in order
         self.hold_key_replies = False
@@ -301,10 +354,14 @@ class Server(object):
                     if lo <= i < hi:
                         i = hi if hi < len(data) else max(0, lo - 1)
                         self.stat("corrupt_moved_off_identity_field")
+                clo, chi = whisper_counter_range(target["type"], data)
                 data[i] ^= 0x20 if pos[2] else 0x01
                 target.data = bytes(data)
                 self.corrupted.add(key)
-                self.w.on_fault("srv_corrupt_enc", key, {"enc": target["type"], "byte": i, "len": len(data)})
+                if clo <= i < chi:
+                    self.corrupted_counter.add(key)
+                self.w.on_fault("srv_corrupt_enc", key, {"enc": target["type"], "byte": i, "len": len(data),
+                                                         "field": "counter" if clo <= i < chi else ""})
         self.to_jid(rcpt, node)
         extra = self.dup_plan.get(key, 0)
         if extra and key not in self.duplicated:
